@@ -49,6 +49,11 @@ CD_SEQS = [
     "{ cd sub; }; ls > out/g", "if cd sub; then ls > out/g; fi", "cd sub && { ls > out/g; }", "cd -- sub; ls > out/g",
     "cd $PWD/sub; ls > out/g", "pushd sub; ls > out/g", "cd sub; ls | cat > out/g", "ls | cd sub; ls > out/g",
     "while cd sub; do ls > out/g; break; done", "fn() { cd sub; }; fn; ls > out/g", "cd sub & ls > out/g",
+    # the second iteration runs where the first one ended (sub/out is granted, sub/sub/out is not)
+    "while cd sub; do ls > out/g; done", "until ! cd sub; do ls > out/g; done", "for d in a b; do cd sub; ls > out/g; done",
+    "for d in a b; do ls > out/g; cd sub; done", "while ls; do cd sub; ls > out/g; done", "cd sub; while cd sub; do ls > out/g; done",
+    "for ((i=0;i<2;i++)); do cd sub; ls > out/g; done", "if cd sub; then ls > out/g; fi; ls > out/g", "cd sub; ls > out/g; cd sub; ls > out/g",
+    "while cd sub && ls; do ls > out/g; done", "select d in a b; do cd sub; ls > out/g; done <<< 1",
 ]
 TOOLS = [  # programs using the file-writing options Dippy models (stdin from a file so nothing blocks)
     "cat f | tee {T}", "cat f | tee -a {T}", "cat f | tee -- {T}", "cat f | tee out/g {T}", "cat f | tee -i {T}",
@@ -83,6 +88,21 @@ def programs(tier, rng):
     # two redirects on one node, granted + ungranted in both orders
     for a, b in itertools.permutations(["> out/g", ">> nogrant", "2> secret/s", "3>&1", "< f", ">| out/h", "{v}> nogrant"], 2):
         out.append(("two-redirects", f"ls {a} {b}", "?"))
+    # every redirectable node shape inside every evaluation position, with an ungranted and a denied
+    # target: nothing may be approved (checked statically and, if approved, by running it)
+    k = 0
+    for (nname, ntmpl), (pos, tmpl) in itertools.product(NODES, bx.EXEC_POSITIONS):
+        k += 1
+        if tier == "quick" and (k % 3):
+            continue
+        op = OPS[k % len(OPS)]
+        tgt, cls = [("nogrant", "ungranted"), ("secret/s", "denied"), ("out/../escape", "ungranted")][k % 3]
+        inner = ntmpl.replace("{R}", f"{op} {tgt}")
+        if op.startswith("{") and nname == "only-redirect":
+            continue
+        if op in ("<",) or "{Xq}" in tmpl and "'" in inner:
+            continue
+        out.append((f"cross:{pos}", bx.fill(tmpl, inner), cls))
     n_rand = 150 if tier == "quick" else 6000
     for _ in range(n_rand):
         nname, ntmpl = rng.choice(NODES)
@@ -137,6 +157,12 @@ def run(tier, seed, replay=None):
                 xcheck.append((model.last_request, list(model.transcript), mv))
             if impl == "allow":
                 approved.append((pos, text))
+                if pos.startswith("cross:") and cls in ("ungranted", "denied"):
+                    # static oracle: a live redirect to a file no rule grants cannot be approved
+                    out.violations.append({"kind": "unchecked-redirect",
+                                           "what": "approved although it contains a write redirection whose target no allow-redirect rule grants",
+                                           "program": text, "position": pos, "config": bx.config_text(cwd), "cwd": cwd,
+                                           "signature_text": text.replace(cwd, "@J@")})
             if idx % 41 == 0:
                 out.sample({"position": pos, "program": text, "verdict": impl})
         model.close()
